@@ -128,9 +128,24 @@ package state
 //@ func (*State).GetCode
 //@   requires st != nil
 //@   modifies st.Code
-//@   ensures result1 == nil && result0 == old(st.Code) && len(st.Code) == 0 && st.Code != nil
+//@   ensures result1 == nil && result0 == old(st.Code) && len(st.Code) == 0 && st.Code != nil && fresh(st.Code)
 
 //@ func (*State).SetCode
 //@   requires st != nil
 //@   modifies st.Code
 //@   ensures st.Code == b
+
+// Restart keeps the entry node and the client flags, clears the built-in ones.
+//@ func (*State).Restart
+//@   serves C20
+//@   requires st != nil && (len(st.ExecPath) > 0 ==> len(st.Flags) > 0)
+//@   modifies st.Flags[0], st.Moves, st.SizeIdx, st.input, st.ExecPath, st.lastMove
+//@   ensures @empty old(len(st.ExecPath)) == 0 ==> result != nil && samePosition(st) && sameFlags(st) && unchanged(st.Moves, st.input, st.lastMove)
+//@   ensures @restart old(len(st.ExecPath)) > 0 ==> result == nil && len(st.ExecPath) == 1 && st.ExecPath[0] == old(st.ExecPath[0]) && st.SizeIdx == 0
+//@     && st.Flags[0] == 0 && clientFlagsSame(st) && fresh(st.input) && st.input != nil
+
+// debug rendering of the state: no effect
+//@ func (*State).String
+//@   assumed
+//@   requires st != nil
+//@   modifies nothing
